@@ -12,9 +12,14 @@ CONSTANTS
   MaxTx = 2
   MaxOps = 100
   Record = FALSE
+  ExtBond = 1
+  ExtDeleg = 14
+  PoolInit = 1
   Impl = "required"
 VIEW ViewNoHist
 INVARIANT Conservation
+INVARIANT BurnAccounted
+INVARIANT ClaimAccounted
 INVARIANT VotingWithinStake
 INVARIANT TotalsConsistent
 INVARIANT NoOverdueUnstake
